@@ -21,7 +21,7 @@ package handler
 //@   modifies assignCalls
 //@   ensures[C17:no-dot] idxByte(method, '.') < 0 ==> result == nil && assignCalls == old(assignCalls)
 //@   ensures[C17:unknown-service] idxByte(method, '.') >= 0 && !in(m, substr(method, 0, idxByte(method, '.'))) ==> result == nil && assignCalls == old(assignCalls)
-//@   ensures[C17:first-dot] idxByte(method, '.') >= 0 && in(m, substr(method, 0, idxByte(method, '.'))) ==> result == assignerResult(lookup(m, substr(method, 0, idxByte(method, '.'))), substr(method, idxByte(method, '.') + 1, len(method)))
+//@   ensures[C17:first-dot] idxByte(method, '.') >= 0 && in(m, substr(method, 0, idxByte(method, '.'))) ==> result == assignerResult(lookup(m, substr(method, 0, idxByte(method, '.'))), inboundOf(ctx), substr(method, idxByte(method, '.') + 1, len(method)))
 
 // Names: the list is sorted (that it is complete is not decided: it needs a
 // witness for every key across the sort's permutation).
